@@ -347,12 +347,29 @@ def stage_a(rep, sc, tier, seed, replay=None, extra_targets=()):
 
 
 # ====================================================================== (b) one stream at a time
+import hist, schedprops, schedgen
+
+B_FILES = ["Properties_SchedLife.v", "Properties_SchedPlace.v"]
+B_NAME_RE = r"^(C02_publish_only_after_save|C11_blocked_only_in_callback|C11_run_needs_handover|C11_once_per_resume|C01_pop_exactly_once|C01_not_queued_elsewhere|C01_never_lost_queued)$"
+B_TARGETS = ["Properties_SchedLife.vo", "Properties_SchedPlace.vo", "Extract_Sched.vo"]   # built together with (a)'s
+
+
 def stage_b(rep, sc, tier, seed, replay=None):
-    """placeholder: the scheduler-LTS half is added here; returns (extra Coq targets handled elsewhere, cov)"""
-    return {"cov": {}, "ok": True}
-
-
-B_TARGETS = []          # extra Coq targets of half (b), built together with (a)'s
+    """scheduler-LTS half: a unit has exactly one structural place (so it runs on at most one stream), RUNNING is stored
+    only by a hand-over, and every action that makes a unit available to another stream (push, READY/BLOCKED store,
+    p_link publication) is enabled only after a callback was entered on its behalf (context saved) or before it ever ran;
+    tied by history conformance of directed-switch / suspend-resume / join scenarios."""
+    proof_b = vlib.proof_stage_multi(B_FILES, B_TARGETS, B_NAME_RE)
+    okl, lib, lerr = vlib.get_lib(sc)
+    if not okl:
+        rep.violation("repo-build.txt", "the library does not compile with -D%s:\n%s" % (vlib.GUARD, lerr), found_input=False)
+        return {"cov": {}, "ok": False, "proof": proof_b}
+    gen = schedprops.mkgen([schedgen.gen_directed, schedgen.gen_suspend, schedgen.gen_join], 12, 200)
+    cov = hist.history_stage(rep, proof_b["ok"], sc, lib, ID, "sched", "h_sched.c", gen, tier, seed, replay=replay,
+                             rule="(b) seeded directed-switch / suspend-resume / join scenarios replayed through the scheduler LTS",
+                             proof_log=proof_b["log"], prop_file=",".join(B_FILES))
+    cov = {("b_" + k): v for k, v in cov.items()}
+    return {"cov": cov, "ok": proof_b["ok"], "proof": proof_b}
 
 
 # ====================================================================== combined
@@ -373,4 +390,30 @@ def run(tier, seed, replay):
         b = stage_b(rep, sc, tier, seed, replay=rp if (rp and not rp.get("kind", "").startswith("c02a")) else None)
         cov = dict(a["cov"])
         cov.update(b["cov"])
-    return rep.finish(a["proof"], cov)
+        proof = dict(a["proof"])
+        pb = b.get("proof")
+        if pb:
+            proof["theorems"] = list(proof["theorems"]) + list(pb["theorems"])
+            proof["discharged"] = proof["discharged"] + pb["discharged"] if (proof["ok"] and pb["ok"]) else 0
+            proof["assumptions"] = list(proof["assumptions"]) + list(pb["assumptions"])
+            proof["ok"] = proof["ok"] and pb["ok"]
+        for k in ("evaluations", "distinct_nontrivial"):
+            cov[k] = cov.get(k, 0) + cov.get("b_" + k, 0)
+    return rep.finish(proof, cov)
+
+
+pre_setup = setup_regenerate
+COQ_TARGETS = TARGETS_A + B_TARGETS
+DRIVERS = ["sched"]
+MANIFEST = {
+    "text": MANIFEST_A["text"] + " (b) one stream at a time, on the scheduler LTS (Conc/Sched.v): a unit has exactly one structural "
+            "place and RUNNING is stored only by a hand-over from Checked/Popped/Created/Blocked/Handoff (C11_run_needs_handover, "
+            "C01_pop_exactly_once, C01_not_queued_elsewhere); every action that makes a unit available to another stream - push into "
+            "a pool, READY or BLOCKED store, publication as a joiner in p_link - is enabled only after a callback was entered on its "
+            "behalf, i.e. after its context was saved (a), or before it ever ran (C02_publish_only_after_save, "
+            "C11_blocked_only_in_callback); tied by history conformance of directed-switch / suspend-resume / join scenarios on the "
+            "real runtime (RUNNING store of a unit that the model does not have in a hand-over state, or a publication outside a "
+            "callback, is a rejected history).",
+    "note": MANIFEST_A["note"] + " " + schedprops.NOTE,
+    "technique": "translator (x86-64 assembly -> Coq instruction lists) + Coq proofs over an executable ISA semantics; Coq invariants over the scheduler LTS + history conformance",
+}
